@@ -7,5 +7,3 @@ package handlers
 //@ type baseHandler invariant [made] self.done != nil && self.commands != nil
 //@ type MaprHandler invariant [aggregate] self.aggregate != nil
 
-//@ func (*HealthHandler).handleMessage
-//@   assigns h.baseHandler.status
